@@ -100,12 +100,13 @@ end
 private theorem varDefsNodes_noop (vars : List VarDef) : ∀ n ∈ vars.flatMap varDefNodes, Node.isOperation n = false := by
   intro n hn
   simp only [List.mem_flatMap, varDefNodes, List.mem_cons, List.mem_append, List.not_mem_nil, or_false] at hn
-  obtain ⟨v, _, rfl | hn | rfl⟩ := hn
+  obtain ⟨v, _, rfl | hn | rfl | hn⟩ := hn
   · rfl
   · cases hd : v.default with
     | none => simp [hd] at hn
     | some dv => rw [hd] at hn; exact valueish_noop (valueNodes_kinds _ n hn)
   · rfl
+  · exact dirsNodes_noop _ n hn
 
 /-- the operation nodes of a document are its operation definitions -/
 theorem mem_nodes_operation (d : Doc) (k : String) (nm : Option String) (vs : List VarDef) (ds : List Dir) (sels : List Sel) :
